@@ -63,7 +63,7 @@ func init() {
 	c04.Scens = []scenBudget{{"sl", 30000, 1000000}, {"nitro_race", 10000, 400000}, {"nitro", 6000, 200000}}
 	c04.Real = append(c04.Real, nReal...)
 	defCheck(&checkDef{Prop: "C06", Level: "exploration",
-		Scens:  []scenBudget{{"nitro_gc", 14000, 500000}, {"nitro", 8000, 250000}},
+		Scens:  []scenBudget{{"nitro_gc", 14000, 500000}, {"nitro", 8000, 250000}, {"nitro_backlog", 160, 4000}},
 		Rule:   nitroRule("delete-heavy histories (several writers deleting the same key in nitro_gc overlap mode), 3-8 snapshots, closers racing on different snapshots in every order; oracle at scheduler-detected quiescence: versions linked at level 0 == model's expected physical set under the in-order pinning rule, GetLastGCSn, snapshot lists, MemoryInUse; a forced GC() is allowed only when Close/GC calls overlapped"),
 		Real:   nReal, Stubbed: nStub, Assume: nAssume,
 		WarnProbe: []string{"gc_trigger_lost_then_forced"},
@@ -107,13 +107,13 @@ func init() {
 		Scens:  []scenBudget{{"damage", 48, 3000}},
 		Rule:   "one simulated run = one generated small database (0-6 keys, several epochs, delta on/off, 1-16 shards) stored fault-free, then EVERY single damage of the backup directory (each file removed; each file truncated at every length; each byte of each file altered in 5 ways) plus sampled multi-shard combinations is applied to a copy and LoadFromDisk (concurrency 1/2/8) runs as a simulator task; one evaluation = one damaged load; all evaluations are distinct (file, position, kind) and non-trivial (a fault was applied); oracle: terminates (scheduler hang verdict otherwise), no panic, error or exact",
 		Real:   nReal, Stubbed: dStub, Assume: []string{"single-fault space is complete per generated backup; backups and multi-fault combinations are sampled", "backups bounded to <= ~1 KiB"},
-		WarnProbe: []string{"multi_shard_damages", "damage_detected"},
+		WarnProbe: []string{"multi_shard_damages", "damage_detected", "backups_needing_their_delta_files"},
 	})
 	defCheck(&checkDef{Prop: "C12", Level: "fault_enumeration",
 		Scens:  []scenBudget{{"wfault", 600, 30000}, {"crashimg", 1500, 60000}},
 		Rule:   "wfault: one run = one generated database stored fault-free (measuring bytes, write calls, open and close boundaries), then re-stored once per fault point: ENOSPC at every byte budget 0..total, EIO and short write at every write call, failing open/WriteFile and close at every boundary (complete when the space fits the per-plan budget, seeded sample otherwise); oracle: StoreToDisk nil => LoadFromDisk exact. crashimg: one run = one StoreToDisk with an image of the directory captured before EVERY file-system mutation (plus the synthesised created-but-empty state of each manifest); oracle per image: LoadFromDisk returns an error or exactly the stored snapshot, never hangs or panics. one evaluation = one fault point / crash image; all distinct and non-trivial by construction",
 		Real:   nReal, Stubbed: dStub, Assume: []string{"crash model is process death: completed system calls survive, user-space buffers are lost (nitro never fsyncs)"},
-		WarnProbe: []string{"store_error_reported", "fs_boundaries"},
+		WarnProbe: []string{"store_error_reported", "fs_boundaries", "backups_needing_their_delta_files"},
 	})
 	defCheck(&checkDef{Prop: "C19", Level: "exploration",
 		Scens:  []scenBudget{{"codec", 20000, 600000}, {"backup", 6000, 200000}},
